@@ -23,11 +23,39 @@ pub struct CaseOut {
     pub coq: String,
 }
 
-fn exec_case<S, SP>(scn: Scenario<S, SP>, id: &str) -> CaseOut
+fn exec_case<S, SP>(scn: Scenario<S, SP>, twin: Scenario<S, SP>, id: &str) -> CaseOut
 where
     S: State + Clone + Key,
     SP: StateSpace<StateType = S> + 'static,
 {
+    // C07: a second, identically constructed and identically driven instance
+    let twin_keys: Option<Vec<(Resp, Vec<Vec<u64>>)>> = if scn.params.seed.is_some() {
+        log::reset();
+        let outs2 = run_script(
+            &twin.params,
+            twin.space.clone(),
+            &twin.problems,
+            &twin.checkers,
+            &twin.script,
+            Duration::from_secs(3600),
+        );
+        Some(
+            outs2
+                .iter()
+                .map(|o| {
+                    (
+                        match &o.resp {
+                            Resp::Path(_) => Resp::Path(vec![]),
+                            r => r.clone(),
+                        },
+                        o.path.as_ref().map(|p| p.iter().map(|s| s.key()).collect()).unwrap_or_default(),
+                    )
+                })
+                .collect(),
+        )
+    } else {
+        None
+    };
     log::reset();
     let outs = run_script(
         &scn.params,
@@ -37,7 +65,33 @@ where
         &scn.script,
         Duration::from_secs(3600),
     );
-    let findings = oracle::check_all(&scn, &outs);
+    let mut findings = oracle::check_all(&scn, &outs);
+    if let Some(tk) = &twin_keys {
+        let mut panicked = false;
+        for (ci, (o, (r2, k2))) in outs.iter().zip(tk.iter()).enumerate() {
+            let r1 = match &o.resp {
+                Resp::Path(_) => Resp::Path(vec![]),
+                r => r.clone(),
+            };
+            let k1: Vec<Vec<u64>> = o.path.as_ref().map(|p| p.iter().map(|s| s.key()).collect()).unwrap_or_default();
+            let same = match (&r1, r2) {
+                (Resp::Panic(_), Resp::Panic(_)) => true,
+                (a, b) => a == b,
+            } && &k1 == k2;
+            if !same && !panicked {
+                findings.push(oracle::Finding {
+                    property: "C07",
+                    class: "seeded_runs_differ".into(),
+                    what: format!("two planners with the same seed and the same calls differ at call {ci}"),
+                    call: ci,
+                });
+                break;
+            }
+            if matches!(o.resp, Resp::Panic(_)) {
+                panicked = true;
+            }
+        }
+    }
     let starts: Vec<Vec<u32>> = scn
         .problems
         .iter()
@@ -45,6 +99,18 @@ where
         .collect();
     let lg = log::take();
     let pv = provenance(&scn.params, &scn.script, &lg);
+    if scn.params.seed.is_some() {
+        // every draw of a seeded planner must come from its seeded stream (until a call panics)
+        let first_panic = outs.iter().position(|o| matches!(o.resp, Resp::Panic(_))).unwrap_or(usize::MAX);
+        if let Some((call, _, _)) = pv.trace.iter().find(|(call, g, _)| *g == 1 && *call <= first_panic) {
+            findings.push(oracle::Finding {
+                property: "C07",
+                class: "foreign_randomness".into(),
+                what: format!("a seeded planner drew from a generator other than its seeded one during call {call}"),
+                call: *call,
+            });
+        }
+    }
     let coq = coq_case(&scn.params, &scn.script, &starts, &lg, &pv, &outs).replace('\n', " ");
     let max_nodes = outs
         .iter()
@@ -126,14 +192,15 @@ fn run_family(family: &str, seed: u64, index: u64, flags: &str) -> CaseOut {
     let o = &opts_of_flags(flags);
     let id = format!("{family}:{seed}:{index}:{flags}");
     let mut r = Sm::new(seed, &format!("{family}/{flags}"), index);
+    let mut r2 = r.clone();
     match family {
-        "table" => exec_case(scen::build_table(&mut r, o), &id),
-        "rv" => exec_case(scen::build_rv(&mut r, o), &id),
-        "so2" => exec_case(scen::build_so2(&mut r, o), &id),
-        "so3" => exec_case(scen::build_so3(&mut r, o), &id),
-        "se2" => exec_case(scen::build_se2(&mut r, o), &id),
-        "se3" => exec_case(scen::build_se3(&mut r, o), &id),
-        "css" => exec_case(scen::build_css(&mut r, o), &id),
+        "table" => exec_case(scen::build_table(&mut r, o), scen::build_table(&mut r2, o), &id),
+        "rv" => exec_case(scen::build_rv(&mut r, o), scen::build_rv(&mut r2, o), &id),
+        "so2" => exec_case(scen::build_so2(&mut r, o), scen::build_so2(&mut r2, o), &id),
+        "so3" => exec_case(scen::build_so3(&mut r, o), scen::build_so3(&mut r2, o), &id),
+        "se2" => exec_case(scen::build_se2(&mut r, o), scen::build_se2(&mut r2, o), &id),
+        "se3" => exec_case(scen::build_se3(&mut r, o), scen::build_se3(&mut r2, o), &id),
+        "css" => exec_case(scen::build_css(&mut r, o), scen::build_css(&mut r2, o), &id),
         _ => panic!("unknown family {family}"),
     }
 }
